@@ -79,6 +79,7 @@ type c21World struct {
 	schema *ytypes.Schema
 	sch    *yang.Entry
 	T, T2  ygot.GoStruct // shared, read-only for the tasks
+	small  ygot.GoStruct // shared, read-only, passes validation (may be nil)
 	leaves []*model.Leaf // leaves of T (for getnode / encode targets)
 	paths  []string      // pool of paths (existing and absent) for getnode
 	// shared input messages
@@ -210,6 +211,20 @@ func buildWorld(c *c21Case) *c21World {
 			}
 		}
 		w.gpaths = append(w.gpaths, gp)
+	}
+	// a small tree that passes validation (one plain string leaf holding characters that
+	// HTML escaping would rewrite): the default configuration of EmitJSON validates first
+	for _, p := range m.Paths() {
+		l := m.Leaves[p]
+		if yangKindName(l.Schema) != "string" || l.Key || strings.Contains(p, "[") || l.Schema.Type == nil || len(l.Schema.Type.Pattern) > 0 || len(l.Schema.Type.Length) > 0 || l.Schema.ReadOnly() {
+			continue
+		}
+		small := w.p.NewRoot()
+		tv := &gpb.TypedValue{Value: &gpb.TypedValue_StringVal{StringVal: "a<b>&c"}}
+		if ytypes.SetNode(w.sch, small, model.GNMI(p), tv, &ytypes.InitMissingElements{}) == nil && small.(ygot.ValidatedGoStruct).Validate() == nil {
+			w.small = small
+			break
+		}
 	}
 	w.pfxElems = make([]*gpb.PathElem, 2, 8)
 	w.pfxElems[0] = &gpb.PathElem{Name: "devices"}
@@ -375,7 +390,7 @@ func factorPrefix(req *gpb.SetRequest, whole bool) {
 	}
 }
 
-var c21ReadOps = []string{"validate", "validate-leafref", "emitjson", "emitjson-rfc", "marshal7951", "construct", "tognmi", "tognmi-slice", "getnode", "getnode-wild", "diff", "diffatomic", "deepcopy", "encodetv", "evict"}
+var c21ReadOps = []string{"emitjson-small", "validate", "validate-leafref", "emitjson", "emitjson-rfc", "marshal7951", "construct", "tognmi", "tognmi-slice", "getnode", "getnode-wild", "diff", "diffatomic", "deepcopy", "encodetv", "evict"}
 var c21WriteOps = []string{"unmarshal", "unmarshal", "unmarshal-tree", "setnode", "setnode", "setnode-json", "setnode-tol", "setreq", "setreq", "unmarshal-bad", "setnode-bad", "evict"}
 
 func (p *c21Prop) genCase(seed uint64, tier string) *c21Case {
@@ -401,6 +416,19 @@ func (p *c21Prop) genCase(seed uint64, tier string) *c21Case {
 			ops = append(ops, Op{K: kinds[r.Intn(len(kinds))], A: map[string]string{"i": strconv.Itoa(r.Intn(1 << 16))}})
 		}
 		c.Tasks = append(c.Tasks, ops)
+	}
+	if r.Intn(3) == 0 {
+		// a focus message: every writer task also applies the first request of the pool (one
+		// with a prefix, if there is any), so that several callers are inside
+		// UnmarshalSetRequest with the very same message
+		for i := range c.Tasks {
+			if c.Workload == "writers" || (c.Workload == "mixed" && i%2 == 1) {
+				at := r.Intn(len(c.Tasks[i]) + 1)
+				ops := append([]Op{}, c.Tasks[i][:at]...)
+				ops = append(ops, Op{K: "setreq", A: map[string]string{"i": "0"}})
+				c.Tasks[i] = append(ops, c.Tasks[i][at:]...)
+			}
+		}
 	}
 	c.Sched = c21Sched{Seed: simrt.Mix(seed, 5), MeanGap: []int{2, 5, 20, 100, 1000, 20000}[r.Intn(6)], Starve: -1}
 	c.Sched.LockBias = []int{0, 2, 4}[r.Intn(3)]
@@ -441,6 +469,20 @@ func (w *c21World) runOp(op Op, root ygot.GoStruct) string {
 			}
 			s, err := ygot.EmitJSON(w.T, ecfg)
 			out = short(canonJSON([]byte(s))) + " " + normErr(err)
+		case "emitjson-small":
+			if w.small == nil {
+				out = "no small tree"
+				return
+			}
+			var ecfg *ygot.EmitJSONConfig // idx%3 == 0: the defaults
+			switch idx % 3 {
+			case 1:
+				ecfg = &ygot.EmitJSONConfig{EscapeHTML: true}
+			case 2:
+				ecfg = &ygot.EmitJSONConfig{Format: ygot.RFC7951, Indent: " ", RFC7951Config: &ygot.RFC7951JSONConfig{AppendModuleName: true}}
+			}
+			s, err := ygot.EmitJSON(w.small, ecfg)
+			out = s + " " + normErr(err)
 		case "emitjson-rfc":
 			cfg := &ygot.RFC7951JSONConfig{AppendModuleName: idx%2 == 0}
 			switch (idx / 2) % 4 {
@@ -677,6 +719,10 @@ func (p *c21Prop) exec(c *c21Case) (*Violation, *Result) {
 			root = model.Clone(ws.roots[i]).(ygot.GoStruct)
 		}
 		ctx := simrt.NewCtx(i, fmt.Sprintf("solo-%d", i), simrt.MapRandom, ctxSeed(i), nil)
+		// every reference run starts from the state of a fresh process, so that what one
+		// task leaves behind (in a pool, a cache) is not part of the next task's reference
+		simrt.ResetGlobals()
+		ytypes.VerifEvictRegexpCache()
 		simrt.With(ctx, func() { ws.runTask(c.Tasks[i], root, &solo[i]) })
 	}
 	// phase 2: all tasks interleaved, on a schema and messages nobody has touched yet (the
